@@ -231,6 +231,52 @@ func graphCheck(env *Env, res *Result, c Case, sub int, val interface{}, feats [
 		}
 		res.Count("reference_renderings_decoded", 1)
 	}
+	// the same graph as the SECOND value of a stream whose first value is another cyclic graph:
+	// ordinals keep counting across the values of one stream on both sides
+	if sub%4 == 1 {
+		first := &zoo.Node{Val: 1}
+		first.Next = &zoo.Node{Val: 2, Prev: first}
+		first.Next.Next = first
+		ftm, fnm := hessian.ExtractTypeNameMap(first)
+		for k, v := range tm {
+			ftm[k] = v
+		}
+		for k, v := range nm {
+			fnm[k] = v
+		}
+		var outs [2]interface{}
+		var serr error
+		pi, _ = Guard(func() {
+			w := &mon.CountingWriter{}
+			enc := hessian.NewEncoder(w, fnm)
+			if serr = enc.WriteObject(first); serr != nil {
+				return
+			}
+			if serr = enc.WriteObject(val); serr != nil {
+				return
+			}
+			dec := hessian.NewDecoder(mon.NewReader(w.Buf.Bytes()), ftm)
+			if outs[0], serr = dec.ReadObject(); serr != nil {
+				return
+			}
+			outs[1], serr = dec.ReadObject()
+		})
+		switch {
+		case pi != nil:
+			viol("stream:panic", pi.Class+": "+pi.Msg)
+		case serr != nil:
+			viol("stream:error", serr.Error())
+		default:
+			if d := zoo.Equiv(first, outs[0], zoo.EquivOpts{}); d != "" {
+				viol("stream:mismatch", "first value: "+d)
+			} else if d := zoo.Equiv(val, outs[1], zoo.EquivOpts{}); d != "" {
+				viol("stream:mismatch", "second value of the stream: "+d)
+			} else if d := zoo.SameSharing(val, outs[1]); d != "" {
+				viol("stream:sharing", "second value of the stream: "+d)
+			}
+		}
+		res.Count("graphs_as_second_value_of_a_stream", 1)
+	}
 	if len(res.Samples) == 0 && refs > 0 {
 		res.Sample(map[string]interface{}{"graph": describe(val), "wire": hexClip(wire), "refs": refs})
 	}
@@ -393,6 +439,32 @@ func (c04) Run(c Case, env *Env) Result {
 				res.Count(f, 1)
 			}
 			graphCheck(env, &res, c, j, s, feats, 4)
+			// the same map behind a pointer field and in plain fields
+			if j%4 == 0 {
+				m := map[string]int32{"a": 1, "b": int32(j)}
+				pm := &zoo.PtrMap{X: in}
+				pf := []string{"type=PtrMap"}
+				switch r.Intn(4) {
+				case 0:
+					pm.PM, pm.M = &m, m
+					pf = append(pf, "same-map-via-pointer-and-plain")
+				case 1:
+					pm.M, pm.PM = m, &m
+					pm.M2 = m
+					pf = append(pf, "same-map-via-pointer-and-plain", "same-map-twice")
+				case 2:
+					pm.M, pm.M2 = m, m
+					pf = append(pf, "same-map-twice")
+				default:
+					pm.M = m
+					pm.M2 = map[string]int32{"a": 1, "b": int32(j)}
+					pf = append(pf, "equal-but-distinct-maps")
+				}
+				for _, f := range pf {
+					res.Count(f, 1)
+				}
+				graphCheck(env, &res, c, j, pm, pf, 2)
+			}
 		}
 	}
 	return res
